@@ -12,7 +12,11 @@
 (* template-data at a level is a partial map key -> kind of value          *)
 (* ("str", "bool", "int", "obj"; "strT" / "str1" are strings that PRINT     *)
 (* like the boolean true / the integer 1 -- values that differ from a      *)
-(* conforming one in JSON type only).  A schema is                         *)
+(* conforming one in JSON type only; "null" is the JSON null: an ordinary  *)
+(* value for the key-wise merge -- the most specific level that mentions   *)
+(* the key wins, also with null (observed on the unchanged tree: null      *)
+(* never "unsets") -- and of a type no typed property accepts).  A schema  *)
+(* is                                                                      *)
 (*    [req: required keys, open: additionalProperties, types: key -> kind] *)
 (*                                                                         *)
 (* Contract layer: FileVerdict(c, f) -- the property as a function of the  *)
@@ -66,7 +70,7 @@ SchemaLoc(c, f) == EffSetting(c.tsch, ChainOfMock(FirstMock(f)), "default")     
 (* Contract *)
 
 \* JSON type of a kind of value: how a value prints is irrelevant to the schema
-TypeOf(v) == IF v \in {"str", "strT", "str1"} THEN "str" ELSE v
+TypeOf(v) == IF v \in {"str", "strT", "str1"} THEN "str" ELSE v          \* TypeOf("null") = "null": fits no typed key
 
 Valid(m, S) == /\ S.req \subseteq DOMAIN m
                /\ ~S.open => DOMAIN m \subseteq DOMAIN S.types
